@@ -64,6 +64,22 @@ pub fn run_property(id: &str, tier: Tier, only_sub: Option<String>) -> i32 {
     };
 
     let mut violations: Vec<(String, String)> = vec![]; // (replay path, message)
+    let mut reports: Vec<SubReport> = vec![];
+    // 0. sub-checks that must see a fresh process (`*.first_calls`): before the witnesses, the regressions and every
+    // other sub-check build anything
+    for s in subs.iter().filter(|s| s.name().ends_with(".first_calls")) {
+        if only_sub.as_ref().map(|o| s.name() != o).unwrap_or(false) {
+            continue;
+        }
+        let ctx0 = RunCtx { property: meta.id, tier, seed, active_known: HashSet::new(), strict: false, only_sub: only_sub.clone(), scale };
+        let ts = Instant::now();
+        let rep = s.run(&ctx0);
+        eprintln!(
+            "  {:<28} evals={:<10} nontrivial={:<10} excluded={:?} skipped={:?} failures={} [{:.1}s]",
+            rep.name, rep.evaluations, rep.nontrivial, rep.excluded_known, rep.skipped, rep.failures.len(), ts.elapsed().as_secs_f64()
+        );
+        reports.push(rep);
+    }
     let mut known_lines: Vec<String> = vec![];
     let mut active: HashSet<String> = HashSet::new();
     let mut regressions_replayed = 0u64;
@@ -143,8 +159,10 @@ pub fn run_property(id: &str, tier: Tier, only_sub: Option<String>) -> i32 {
 
     // 3. the sub-checks
     let ctx = RunCtx { property: meta.id, tier, seed, active_known: active.clone(), strict: false, only_sub: only_sub.clone(), scale };
-    let mut reports: Vec<SubReport> = vec![];
     for s in &subs {
+        if s.name().ends_with(".first_calls") {
+            continue;
+        }
         if let Some(o) = &only_sub {
             if s.name() != o {
                 continue;
